@@ -249,7 +249,8 @@ func runC03(c c03Case, protos []vt.NamedProto) []string {
 		} else {
 			sess.AsyncCall("/client/do", &LibArg{Rid: "prior"}, new(LibRes), make(chan erpc.CallCmd, 1), erpc.WithContext(ctx))
 		}
-		raw.WaitFrames(1)
+		// (if the deadline passed before the message could be written there is no frame: fine)
+		vt.WaitUntilFor(200*time.Millisecond, func() bool { return len(raw.Frames()) >= 1 })
 		priorFrames = len(raw.Frames())
 		if c.PriorDeadline == "call" && priorFrames > 0 {
 			// answer it, so that nothing of it is left pending
